@@ -103,7 +103,7 @@ class C08(PropBase):
     extractors = ["nl", "dispatch", "trans"]
     rule = ("histories of 2-7 airborne-position squitters (TC 9-18, DF17) of one aircraft among others: true positions stratified over "
             "every NL transition latitude +-1e-6..3e-2 deg, even/odd latitude-zone edges, equator, +-86.9/86.9999, antimeridian, Greenwich, "
-            "longitude-zone edges, uniform; both hemispheres; either parity first; displacement 0-3 km between frames; delays 0, 2, 9.4, "
+            "longitude-zone edges, uniform; both hemispheres; every sixth aircraft flying back and forth across the equator (the zone index wraps there), an NL transition latitude or a zone edge so that the frames of a pair lie on either side; either parity first; displacement 0-3 km between frames; delays 0, 2, 9.4, "
             "9.5, 10.5, 10.6, 3600 s; identification / velocity / DF4 / DF11 / DF20 frames and surface frames (TC 5-8) and frames with a CPR field of exactly 0 (same or other parity) interleaved; -U on/off; "
             "observers None and six 'lat,lon' strings with blanks; pairs with identical raw CPR fields sent back to back by two aircraft as surface/airborne, airborne/surface/airborne and airborne/airborne. After every frame the row is compared with a reference that knows "
             "only the true positions, receive times and the rule of the property (encoded-zone equality computed exactly): shown position "
@@ -137,9 +137,25 @@ class C08(PropBase):
                 odd = rng.randrange(2)
                 nfr = rng.randrange(2, 8)
                 steps = []
+                # every sixth aircraft flies back and forth ACROSS a boundary latitude - the equator (where the latitude zone index
+                # wraps: even frame just north, odd frame just south and the other way round), an NL transition latitude, a
+                # latitude-zone edge - so that the two frames of a pair lie on either side of it, in both orders
+                cross = None
+                if cc % 6 == 5:
+                    bk = rng.randrange(4)
+                    if bk in (0, 1):
+                        base = Fraction(0)
+                    elif bk == 2:
+                        base = F.NL_FR[rng.randrange(len(F.NL_FR) - 1)] * rng.choice([-1, 1])
+                    else:
+                        base = Fraction(360, 60 - rng.randrange(2)) * rng.randrange(-14, 15)
+                    cross = (base, rng.choice([-1, 1]))
+                    lat = base + cross[1] * Fraction(rng.choice([2, 6, 11]), 1000)
                 for i in range(nfr):
                     kind = "air"
                     r = rng.random()
+                    if cross is not None:
+                        r = 1.0
                     if i > 0 and r < 0.10:
                         kind = "surface"
                     elif i > 0 and r < 0.18:
@@ -151,6 +167,9 @@ class C08(PropBase):
                     if kind not in ("same-parity", "zero-same") and i > 0:
                         odd = 1 - odd
                     la, lo = displaced(rng, lat, lon, rng.choice([0, 0.05, 0.4, 1.5, 3.0])) if i > 0 else (lat, lon)
+                    if cross is not None and i > 0:
+                        la = cross[0] + cross[1] * (-1) ** i * Fraction(rng.choice([2, 6, 11]), 1000)
+                        lo = F.fmod_pos(lon + Fraction(rng.randrange(-5, 6), 1000) + 180, 360) - 180
                     lat, lon = la, lo
                     df = 17
                     tc = rng.randrange(9, 19)
@@ -179,6 +198,8 @@ class C08(PropBase):
                     ops += [f"case {cc}.{i}"] + gen.seg(lines) + ["dump"]
                     steps.append((i, verdict, float(la), float(lo), t, kind, tc, u))
                     gap = rng.choice([0, 2000, 2000, 9400, 9500, 10500, 10600, 3600000])     # >= 0.4 s of margin to the 10 s window
+                    if cross is not None:
+                        gap = rng.choice([0, 1000, 2000, 2000])
                     ops.append(f"adv {gap}")
                     t += gap
                 plan.append((cc, addr, steps, cur_obs, F.nl(encoded_rlat(lat, 0))))
